@@ -88,7 +88,7 @@ def eval_ref(src, names, ast_body):
 def compare(tag, out, gk, got, ge, renv, ienv):
     if out[0] == 'unspec':
         return None
-    if out[0] == 'any':
+    if out[0] in ('any', 'other'):
         if gk == 'value':
             return 'class:error-expected', f'{tag}: reference expects an error, implementation returned {got!r}'
     elif out[0] != gk:
